@@ -449,7 +449,7 @@ pub fn scan_and_mark_chemistry(mathml: Element) -> bool {
 // returns the marked attr value or None
 fn get_marked_value(mathml: Element) -> Option<isize> {
     if let Some(value) = mathml.attribute_value(MAYBE_CHEMISTRY) {
-        return Some(value.parse().unwrap());
+        return value.parse().ok();      // the attr might have come with the input and not be a number -- treat it as not marked
     } else {
         return None;
     }
